@@ -215,8 +215,8 @@ def _row_check(row, key, value):
     v = row[key]
     if value is None:
         return v is None
-    if is_nan(value):
-        return is_nan(v)
+    if _nan(value):
+        return _nan(v)
     if isinstance(value, Pattern):
         return is_str(v) and value.search(v) is not None
     return _in(v, as_list(value))
@@ -526,8 +526,8 @@ class dictable(Dict):
         for key, value in filters.items():
             if value is None:
                 res = res[[r is None for r in res[key]]]
-            elif is_nan(value):
-                res = res[[is_nan(r) for r in res[key]]]
+            elif _nan(value):
+                res = res[[_nan(r) for r in res[key]]]
             elif isinstance(value, Pattern):
                 res = res[[is_str(r) and value.search(r) is not None for r in res[key]]]                
             else:
